@@ -17,7 +17,7 @@ const NODE_CAP: u64 = 64 * 1024 * 1024;
 
 #[derive(Clone, Debug, Serialize, Deserialize, Default)]
 struct Plan {
-    /// "stream" | "exhaustive" | "fault" | "nodeloop"
+    /// "stream" | "exhaustive" | "fault" | "nodeloop" | "handover" | "nodeidle"
     kind: String,
     /// true = 2-byte prefix (handshake), false = 4-byte (distribution)
     #[serde(default)]
@@ -129,9 +129,10 @@ impl Scenario for C05 {
             1 | 2 | 3 => "fault",
             4 | 5 => "nodeloop",
             6 => "handover",
+            7 => "nodeidle",
             _ => "stream",
         };
-        let handshake = kind != "nodeloop" && kind != "handover" && r.chance(1, 2);
+        let handshake = kind != "nodeloop" && kind != "handover" && kind != "nodeidle" && r.chance(1, 2);
         let n = match kind {
             "exhaustive" => r.range(1, 3) as usize,
             _ => r.range(1, 8) as usize,
@@ -159,6 +160,15 @@ impl Scenario for C05 {
                     *l = 256 + *l % 2000;
                 }
             }
+        }
+        if kind == "nodeidle" {
+            // quiet periods beyond the read timeout, then a length prefix that arrives in two pieces
+            p.lens = (0..n).map(|_| *r.pick(&[0u32, 1, 10, 300])).collect();
+            p.gap_ms = *r.pick(&[100u32, 400, 1000, 10_000]);
+            p.cut_every = 0;
+            p.cap = 0;
+            p.feeder = EndCfg::default();
+            p.reader = EndCfg { chunking: *r.pick(&[Chunking::Whole, Chunking::Random, Chunking::Byte]), ..Default::default() };
         }
         if kind == "nodeloop" || kind == "handover" {
             // lengths here are payload binary sizes
@@ -200,6 +210,7 @@ impl Scenario for C05 {
                 "fault" => fault(&w, &p).await,
                 "nodeloop" => nodeloop(&w, &p).await,
                 "handover" => handover(&w, &p).await,
+                "nodeidle" => nodeidle(&w, &p).await,
                 _ => stream(&w, &p).await,
             }
         });
@@ -213,7 +224,7 @@ impl Scenario for C05 {
             components_stubbed: &["TCP socket (SimNet pipe)", "peer (byte feeder / collector)"],
             assumptions: &["TCP semantics: bytes arrive in order, unmodified, until close/reset", "allocation size measured per thread by a counting global allocator"],
             fault_prefixes: &["fault.", "net."],
-            expected_probes: &["probe.c05.eof_in_prefix", "probe.c05.eof_in_body", "probe.c05.eof_between_frames", "probe.c05.overcap_refused", "probe.c05.zero_len_frame", "probe.c05.len_65536", "probe.c05.handover_coalesced", "probe.c05.frame_above_16_mib"],
+            expected_probes: &["probe.c05.eof_in_prefix", "probe.c05.eof_in_body", "probe.c05.eof_between_frames", "probe.c05.overcap_refused", "probe.c05.zero_len_frame", "probe.c05.len_65536", "probe.c05.handover_coalesced", "probe.c05.frame_above_16_mib", "probe.c05.idle_beyond_read_timeout", "probe.c05.prefix_in_two_pieces"],
         }
     }
 }
@@ -595,6 +606,78 @@ async fn nodeloop(w: &Arc<World>, p: &Plan) {
     w.ev("N done");
 }
 
+
+/// The node's read loop with a short read timeout: any quiet period is allowed before a frame, and a
+/// frame whose length prefix arrives in two pieces (the pause between them below the timeout) is still one frame.
+async fn nodeidle(w: &Arc<World>, p: &Plan) {
+    use crate::conv::to_val;
+    use crate::wire::Val;
+    use tokio::io::AsyncWriteExt;
+    let t_ms = u64::from(p.gap_ms);
+    if t_ms < 100 || p.cap != 0 || p.cut_every != 0 || p.reader.latency_ms != 0 || p.reader.spurious_16 != 0 || p.reader.stall_16 != 0 || p.feeder != EndCfg::default() {
+        return; // not a plan the generator makes (the timing margins below assume a calm link)
+    }
+    let mut r = Rng::new(p.fill_seed);
+    // (idle before the frame, bytes of the prefix in the first piece, pause, frame)
+    let mut script: Vec<(u64, usize, u64, Vec<u8>)> = Vec::new();
+    let mut expect: Vec<(Val, Val)> = Vec::new();
+    for (i, l) in p.lens.iter().enumerate() {
+        if r.chance(1, 3) {
+            script.push((r.below(3 * t_ms), r.range(1, 3) as usize, t_ms / 4 + r.below(t_ms / 2), wire::frame4(&[])));
+        }
+        let ctl = Val::tuple(vec![Val::int(2), Val::atom(""), wire::gen_pid(&mut r, Some("sut@host"))]);
+        let msg = Val::tuple(vec![Val::int(i as i128), Val::Bin(r.bytes((*l).min(3000) as usize))]);
+        let idle = match r.below(4) {
+            0 => 0,
+            1 => t_ms / 2,
+            _ => t_ms + r.below(4 * t_ms),
+        };
+        let pause = if r.chance(1, 5) { 0 } else { t_ms / 4 + r.below(t_ms / 2) };
+        script.push((idle, r.range(1, 3) as usize, pause, wire::frame4(&wire::pass_through(&ctl, Some(&msg)))));
+        expect.push((ctl, msg));
+    }
+    let (mut fwe, fre, _ctl) = pipe(w, 0, p.feeder.clone(), p.reader.clone(), "I");
+    let w2 = w.clone();
+    let feeder = async move {
+        for (idle, split, pause, frame) in script {
+            if idle > 0 {
+                tokio::time::sleep(Duration::from_millis(idle)).await;
+                if idle >= t_ms {
+                    w2.stat("probe.c05.idle_beyond_read_timeout");
+                }
+            }
+            let split = split.min(frame.len());
+            let _ = fwe.write_all(&frame[..split]).await;
+            if pause > 0 {
+                w2.stat("probe.c05.prefix_in_two_pieces");
+                tokio::time::sleep(Duration::from_millis(pause)).await;
+            }
+            let _ = fwe.write_all(&frame[split..]).await;
+        }
+        fwe
+    };
+    let w3 = w.clone();
+    let reader = async move {
+        let mut half = edp_client::verif::OwnedReadHalf::from_box(Box::new(fre));
+        for (i, (ctl, msg)) in expect.iter().enumerate() {
+            match edp_client::Connection::receive_message_from_read_half(&mut half, Duration::from_millis(t_ms)).await {
+                Ok((c, m)) => {
+                    if &to_val(&c.to_term()) != ctl || m.as_ref().map(to_val).as_ref() != Some(msg) {
+                        w3.violation("frame-mismatch", format!("node loop with quiet periods: message {} came back different", i));
+                        return;
+                    }
+                }
+                Err(e) => {
+                    w3.violation("frame-error", format!("node loop with quiet periods (read timeout {} ms; every pause inside a frame is below three quarters of it): message {}: {}", t_ms, i, e));
+                    return;
+                }
+            }
+        }
+    };
+    let (we, _) = tokio::join!(feeder, reader);
+    drop(we);
+    w.ev("I done");
+}
 
 /// What a node does with a fresh connection: a few handshake-mode frames through
 /// FramedTransport::read, then the read half is taken and distribution frames are read with
